@@ -4,6 +4,8 @@ BOUNDED - never counted as proved.  Bounds are stated in `rule`.
 """
 from __future__ import annotations
 
+import numpy as np
+
 import itertools
 import math
 import random
@@ -194,6 +196,18 @@ def check_builder_chunk(seq):
             eng.sample_all_epochs()
         except Exception as e:
             return {"sig": "native::builder::accepted_schedule_cannot_be_sampled", "what": f"an accepted schedule raises {type(e).__name__} when sampled: {str(e)[:120]}", "input": {"schedule": seq}}
+    # the same builder built AGAIN: same chunk length, and the engine samples the whole schedule
+    eng2 = b.build()
+    g2 = eng2._jitted_sample_duration
+    total = sum(c[1] for c in seq)
+    if g2 != g:
+        return {"sig": "native::builder::second_build", "what": f"second build() of the same builder: chunk length {g2}, first build {g}", "input": {"schedule": seq}}
+    if total <= 60:
+        eng2.sample_all_epochs()
+        n = int(np.asarray(eng2.get_results().get_samples()["x"]).shape[1])
+        want = 1 + sum(c[1] // c[2] for c in seq[1:])
+        if n != want:
+            return {"sig": "native::builder::second_build", "what": f"second build() of the same builder: the engine stored {n} samples for a schedule that stores {want}", "input": {"schedule": seq}}
     return None
 
 
